@@ -38,6 +38,8 @@ def gen_cases(rng, tier: str) -> list[dict]:
 
 def check_cases(cases: list[dict], rep: Report, known: dict) -> None:
     for c in cases:
+        if rep.stop():
+            break
         configs = [(h, p) for h in c["hashseeds"] for p in c["perms"]]
         if len(configs) > 24:
             configs = configs[:6] + configs[6::3]
